@@ -148,8 +148,73 @@ func (d *GroupDom) BinOp(in *Interp, op token.Token, x, y Val, xt types.Type, po
 			}
 		}
 	}
+	if dv, ok := x.(DigitV); ok && op == token.QUO {
+		if c, ok := y.(Int); ok && c.V.Cmp(big.NewInt(2)) == 0 {
+			return DigitHalf{P: dv.P} // ⌊x/2⌋: the table index of an odd positive digit x
+		}
+	}
 	in.Undecided(pos, "group domain: %T %s %T (a data-dependent operation on digits or points is outside the recognised primitives)", x, op, y)
 	return nil
+}
+
+// DigitHalf is ⌊x/2⌋ for a digit x: the index of x·Q in a table of odd multiples.
+type DigitHalf struct{ P *poly.Poly }
+
+// nafEntry is the contract of a variable-time lookup in a table of odd multiples:
+// for an odd digit 0 < x < 2^(w−1), entry ⌊x/2⌋ is x·(entry 0), provided the table
+// holds (2i+1)·(entry 0) and has at least 2^(w−2) entries.
+func (d *GroupDom) nafEntry(in *Interp, site ssa.Instruction, arr *Agg, p *poly.Poly, name string) *GV {
+	for _, v := range p.Vars() {
+		w := 0
+		for pre, pw := range d.NafWidth {
+			if strings.HasPrefix(v, pre) {
+				w = pw
+			}
+		}
+		if w == 0 {
+			in.Undecided(site, "%s indexed by %s, which is not a NAF digit of known width", name, v)
+		}
+		if need := 1 << uint(w-2); len(arr.Elems) < need {
+			in.Undecided(site, "%s has %d entries but is indexed by width-%d NAF digits (odd, up to %d): it needs %d", name, len(arr.Elems), w, (1<<uint(w-1))-1, need)
+		}
+		d.WidthChecks++
+	}
+	base, ok := arr.Elems[0].(*GV)
+	if !ok || base.Invalid {
+		in.Undecided(site, "%s on a table that was never built", name)
+	}
+	for i, e := range arr.Elems {
+		g, ok := e.(*GV)
+		if !ok || !g.Equal(d.scale(base, d.R.Int(int64(2*i+1)))) {
+			in.Undecided(site, "%s: table entry %d is %v, not %d·(entry 0)", name, i, e, 2*i+1)
+		}
+	}
+	return d.scale(base, p)
+}
+
+// IndexAddr: &table[⌊x/2⌋] for a NAF digit x designates x·(entry 0) (read-only use).
+func (d *GroupDom) IndexAddr(in *Interp, site ssa.Instruction, base Val, idx Val) (Val, bool) {
+	dh, ok := idx.(DigitHalf)
+	if !ok {
+		return nil, false
+	}
+	var arr *Agg
+	switch b := base.(type) {
+	case Ptr:
+		arr, _ = in.Load(site, b).(*Agg)
+	}
+	if arr == nil || len(arr.Elems) == 0 {
+		return nil, false
+	}
+	g := d.nafEntry(in, site, arr, dh.P, "table lookup")
+	et := types.Type(nil)
+	if first, ok := arr.Elems[0].(*GV); ok {
+		_ = first
+	}
+	obj := &Object{Name: "table entry", Type: et, Val: g}
+	in.nextObj++
+	obj.ID = in.nextObj
+	return Ptr{Obj: obj}, true
 }
 func (d *GroupDom) UnOp(in *Interp, op token.Token, x Val, xt types.Type, pos ssa.Instruction) Val {
 	if dv, ok := x.(DigitV); ok && op == token.SUB {
@@ -215,6 +280,11 @@ func (d *GroupDom) Call(in *Interp, site ssa.Instruction, fn *ssa.Function, args
 		return put(d.Zero()), true
 	case "(*projP2).FromP1xP1", "(*projP2).FromP3", "(*Point).fromP1xP1", "(*Point).fromP2", "(*projCached).FromP3", "(*affineCached).FromP3", "(*Point).Set":
 		return put(d.gv(in, site, args[1], name)), true
+	case "(*Point).Add":
+		// the exported group operations are the group law for every aliasing pattern (C02's E9 obligations)
+		return put(d.add(d.gv(in, site, args[1], name), d.gv(in, site, args[2], name), 1)), true
+	case "(*Point).Subtract":
+		return put(d.add(d.gv(in, site, args[1], name), d.gv(in, site, args[2], name), -1)), true
 	case "(*projP1xP1).Add", "(*projP1xP1).AddAffine":
 		return put(d.add(d.gv(in, site, args[1], name), d.gv(in, site, args[2], name), 1)), true
 	case "(*projP1xP1).Sub", "(*projP1xP1).SubAffine":
@@ -279,33 +349,7 @@ func (d *GroupDom) Call(in *Interp, site ssa.Instruction, fn *ssa.Function, args
 		// provided points[i] = (2i+1)·points[0]
 		tab := in.Load(site, args[0])
 		arr := tab.(*Agg).Elems[0].(*Agg)
-		// the digit is ± one NAF digit of width w: odd, |x| ≤ 2^(w−1)−1, so the index x/2 needs 2^(w−2) entries
-		for _, v := range dv.P.Vars() {
-			w := 0
-			for pre, pw := range d.NafWidth {
-				if strings.HasPrefix(v, pre) {
-					w = pw
-				}
-			}
-			if w == 0 {
-				in.Undecided(site, "%s indexed by %s, which is not a NAF digit of known width", name, v)
-			}
-			if need := 1 << uint(w-2); len(arr.Elems) < need {
-				in.Undecided(site, "%s has %d entries but is indexed by width-%d NAF digits (odd, up to %d): it needs %d", name, len(arr.Elems), w, (1<<uint(w-1))-1, need)
-			}
-			d.WidthChecks++
-		}
-		base, ok := arr.Elems[0].(*GV)
-		if !ok || base.Invalid {
-			in.Undecided(site, "%s on a table that was never built", name)
-		}
-		for i, e := range arr.Elems {
-			g, ok := e.(*GV)
-			if !ok || !g.Equal(d.scale(base, d.R.Int(int64(2*i+1)))) {
-				in.Undecided(site, "%s: table entry %d is %v, not %d·(entry 0)", name, i, e, 2*i+1)
-			}
-		}
-		in.Store(site, args[1], d.scale(base, dv.P))
+		in.Store(site, args[1], d.nafEntry(in, site, arr, dv.P, name))
 		return nil, true
 	case "(*projLookupTable).SelectInto", "(*affineLookupTable).SelectInto":
 		dv, isDigit := args[2].(DigitV)
